@@ -255,6 +255,50 @@ def c08_task(arg):
         s.cleanup()
 
 
+def c08_repeat_task(arg):
+    """The same command listed twice in one run: the second execution's (shorter) output replaces the
+    first one's log; the stored log must be exactly the second execution's bytes."""
+    how, ntargets = arg
+    s = sc.Scratch("c08rep")
+    try:
+        ts = [{"path": "t%d" % i} for i in range(ntargets)]
+        extra = {"sequences": {"twice": ["build", "build"], "mix": ["build", "test", "build"]}}
+        r = sc.Repo(s, "r", ts, commands={t["path"]: {"build": "x", "test": "x"} for t in ts}, init_git=False, cfg_extra=extra)
+        long_out = b"".join(b"first execution line %04d of a long log\n" % i for i in range(400))
+        short_out = b"second execution: one short line\n"
+        for t in ts:
+            r.set_script(t["path"], "build", ["out " + long_out.hex(), "err " + long_out.hex(), "exit 0"], nth=1)
+            r.set_script(t["path"], "build", ["out " + short_out.hex(), "err " + short_out.hex(), "exit 0"], nth=2)
+            r.set_script(t["path"], "test", ["out " + b"test\n".hex(), "exit 0"])
+        args = {"-c twice": ["run", "-c", "build", "build"], "sequence twice": ["run", "-s", "twice"], "sequence mix": ["run", "-s", "mix"],
+                "sequence plus -c": ["run", "-s", "twice"]}[how]
+        res = r.mr(*args, env=r.trace_env())
+        doc = res.json()
+        v = []
+        if res.code != 0 or doc is None:
+            return {"judged": 1, "v": [("e2e-run-failed", "%s: exit %s %s" % (how, res.code, res.err[:200]), {"cli_c08_repeat": [how, ntargets]})]}
+        for t in ts:
+            for f in ("stdout.zst", "stderr.zst"):
+                p = os.path.join(doc["out"]["run"]["path"], "build", doc["out"]["run"]["targets"][t["path"]], f)
+                try:
+                    got = sc.zstd_cat(p)
+                except Exception as e:
+                    v.append(("e2e-undecodable", "%s: %s of %s after the command ran twice: %s" % (how, f, t["path"], str(e)[:150])))
+                    continue
+                if got != short_out:
+                    v.append(("e2e-bytes-differ", "%s: %s of %s holds %d bytes, the last execution wrote %d" % (how, f, t["path"], len(got), len(short_out))))
+        ls = r.mr("log", "show", "--stdout", "--stderr", "-c", "build")
+        if ls.code != 0:
+            v.append(("e2e-log-show-fails", "%s: log show exit %s %s" % (how, ls.code, ls.err[:150])))
+        return {"judged": 1, "v": [(sig, d, {"cli_c08_repeat": [how, ntargets]}) for sig, d in v]}
+    except common.EngineError as e:
+        return {"engine_error": str(e)}
+    except Exception:
+        return {"engine_error": traceback.format_exc()[-1200:]}
+    finally:
+        s.cleanup()
+
+
 def run_slice(prop, tier):
     if prop == "C17":
         sizes = [3, 60, 400] if tier == "quick" else [3, 60, 160, 400, 1500]
@@ -265,6 +309,7 @@ def run_slice(prop, tier):
         scripts = c08_scripts(tier)
         tasks = [(n, l, e, k) for (n, l, e) in scripts for k in ((1, 3) if tier == "quick" else (1, 2, 3, 5))]
         res = common.pmap(c08_task, tasks)
+        res += common.pmap(c08_repeat_task, [(how, k) for how in ("-c twice", "sequence twice", "sequence mix") for k in (1, 3)])
     else:
         return 0, []
     errs = [r["engine_error"] for r in res if "engine_error" in r]
@@ -290,7 +335,9 @@ def merge(result, prop, tier):
 
 
 def replay_case(prop, case):
-    if "cli_c17" in case:
+    if "cli_c08_repeat" in case:
+        r = c08_repeat_task(tuple(case["cli_c08_repeat"]))
+    elif "cli_c17" in case:
         r = c17_task(case["cli_c17"])
     elif "cli_c18" in case:
         r = c18_task(case["cli_c18"])
